@@ -118,6 +118,36 @@ Theorem c18_own_stats_normalised : forall x dim d eps sigma y ov i,
 Proof. exact own_stats_normalised. Qed.
 Print Assumptions c18_own_stats_normalised.
 
+(* "directory-level accumulation" (compute-mvn-stats-for-torch-feat-data-dir without --id2gid):
+   the saved statistics are the pooled statistics of the frames of all files, whatever the
+   number, order and shapes of the files *)
+Theorem c18_cmd_directory_stats : forall files dim X bessel,
+  files <> [] -> uniform dim X (map snd files) -> (2 <= frames dim (map snd files))%nat ->
+  exists mean var,
+    compute_mvn_stats files None dim bessel = CmdOk [(0%nat, (mean, var))] /\
+    length mean = X /\ length var = X /\
+    forall i, (i < X)%nat ->
+      nth i mean 0 == pop_mean (pooled dim (map snd files) i) /\
+      nth i var 0 == pop_var bessel (pooled dim (map snd files) i).
+Proof. exact cmd_directory_stats. Qed.
+Print Assumptions c18_cmd_directory_stats.
+
+(* non-vacuity: a concrete two-tensor history (shapes (2,2) and (1,2,1), dim = -1 resp. its
+   position) meets the hypotheses; three frames (1,2), (3,6), (5,1) *)
+Example c18_stats_nonvacuous :
+  let xs := [mkT [2; 2]%nat [1; 2; 3; 6]; mkT [1; 2]%nat [5; 1]] in
+  xs <> [] /\ uniform (-1) 2 xs /\ frames (-1) xs = 3%nat /\
+  pooled (-1) xs 1 = [2; 6; 1] /\
+  exists mean var, bind (accumulate_all (-1) None xs) (fun s => store s true) = Ok (mean, var) /\
+                   Forall2 Qeq mean [3; 3] /\ Forall2 Qeq var [4; 7].
+Proof.
+  cbv zeta. split; [discriminate|]. split.
+  - repeat constructor; exists 1%nat; split; reflexivity.
+  - split; [reflexivity|]. split; [reflexivity|].
+    eexists. eexists. split; [vm_compute; reflexivity|].
+    split; repeat constructor; reflexivity.
+Qed.
+
 (* ---- deltas --------------------------------------------------------------------------- *)
 
 (* the model's list-building padding is the position-wise extension of the specification *)
@@ -135,6 +165,48 @@ Theorem c18_delta_line_eq_regression : forall m v o w x u t,
   nth t (nth u (delta_line m v o w x) []) 0 == regress w u (ext m v x) (Z.of_nat t).
 Proof. exact delta_line_eq_regression. Qed.
 Print Assumptions c18_delta_line_eq_regression.
+
+(* "laid out along the requested dimension by stacking or concatenation": for EVERY number of
+   dimensions, time_dim, dim (negative values included) and both settings of concatenate, the
+   output has the documented shape and every entry is the regression formula of the order
+   and source position that [delta_src] reads off its index: stacking puts the order on a new
+   axis at dim; concatenation stores order u of coefficient i at u * X + i *)
+Theorem c18_feat_deltas_layout : forall x dim time_dim (conc : bool) order width m v out,
+  feat_deltas x dim time_dim conc order width m v = Ok out ->
+  exists td dm,
+    norm_dim (length (shape x)) time_dim = Some td /\
+    norm_dim (if conc then length (shape x) else S (length (shape x))) dim = Some dm /\
+    shape out = delta_shape (shape x) dm conc (Z.to_nat order) /\
+    forall idx, valid (shape out) idx ->
+      get out idx == delta_at x td dm conc (Z.to_nat width) m v idx.
+Proof. exact feat_deltas_layout. Qed.
+Print Assumptions c18_feat_deltas_layout.
+
+(* the call succeeds for all legal arguments (so the theorem above is not vacuous), and every
+   failure is a RuntimeError *)
+Theorem c18_feat_deltas_defined : forall x dim time_dim (conc : bool) order width m v td dm,
+  (0 <= order)%Z -> (1 <= width)%Z ->
+  norm_dim (length (shape x)) time_dim = Some td ->
+  norm_dim (if conc then length (shape x) else S (length (shape x))) dim = Some dm ->
+  (m = Constant \/ Qeq_bool v 0 = true) ->
+  (1 <= nth td (shape x) 0)%nat ->
+  pad_ok m (Z.to_nat width * Z.to_nat order) (nth td (shape x) 0%nat) = true ->
+  exists out, feat_deltas x dim time_dim conc order width m v = Ok out.
+Proof. exact feat_deltas_defined. Qed.
+Print Assumptions c18_feat_deltas_defined.
+
+Theorem c18_feat_deltas_errors : forall x dim time_dim conc order width m v e,
+  feat_deltas x dim time_dim conc order width m v = Err e -> e = ERuntime.
+Proof. exact feat_deltas_errors. Qed.
+Print Assumptions c18_feat_deltas_errors.
+
+Example c18_deltas_nonvacuous :
+  let x := mkT [3; 2]%nat [1; 2; 3; 4; 5; 7] in
+  feat_deltas x (-1) (-2) true 2 1 Reflect 0 =
+    Ok (mkT [3; 6]%nat [1; 2; 0; 0; 2; 5 # 2;   3; 4; 2; 5 # 2; 0; 0;   5; 7; 0; 0; -2; -5 # 2]) /\
+  delta_src [3; 2]%nat 1 true [0; 5]%nat = (2%nat, [0; 1]%nat) /\
+  regress 1 2 (ext Reflect 0 [2; 4; 7]) 0 == 5 # 2.
+Proof. cbv zeta. split; [vm_compute; reflexivity|]. split; [reflexivity|]. vm_compute. reflexivity. Qed.
 
 (* ---- returns -------------------------------------------------------------------------- *)
 
@@ -163,3 +235,11 @@ Theorem c18_return_error_iff : forall r g bf,
   time_distributed_return r g bf = Err ERuntime <-> length (shape r) <> 2%nat.
 Proof. exact return_error_iff. Qed.
 Print Assumptions c18_return_error_iff.
+
+Example c18_return_nonvacuous :
+  time_distributed_return (mkT [3; 2]%nat [1; 2; 3; 4; 5; 6]) (1 # 2) false =
+    Ok (mkT [3; 2]%nat [15 # 4; 11 # 2; 11 # 2; 7; 5; 6]) /\
+  time_distributed_return (mkT [2; 3]%nat [1; 3; 5; 2; 4; 6]) 3 true =
+    Ok (mkT [2; 3]%nat [55; 18; 5; 68; 22; 6]) /\
+  ret_rec 3 [1; 3; 5] = [1 + 3 * (3 + 3 * (5 + 3 * 0)); 3 + 3 * (5 + 3 * 0); 5 + 3 * 0].
+Proof. split; [vm_compute; reflexivity|]. split; [vm_compute; reflexivity|]. reflexivity. Qed.
